@@ -77,7 +77,7 @@ def gen_ops(rng, timed, tier):
         op = {'fam': 'exp', 'agg': rng.choice(EXP + ['mean'])}
         op.update(_target(rng))
         if op['agg'] in ('var', 'std'):
-            op['ddof'] = rng.choice([1, 1, 0])
+            op['ddof'] = rng.choice([1, 1, 0, 2, 3])
         if op['agg'] not in ('size',) and rng.random() < 0.35:
             op['wexpr'] = rng.choice(['neg', 'add', 'mul', 'rsub'])     # element-wise step on the Expanding object itself
         ops.append(op)
